@@ -837,6 +837,47 @@ func ruleEOSCallsCloseR(c *Check, p *Program, rule string) {
 			}
 		}
 		c.Cond(nEdges > 0 && !bad, rule, key, p.InstrPos(closeCalls[0]), "every path from the `err == io.EOF` decision to a return passes through Frame.CloseR", fmt.Sprintf("%d end-of-stream edge(s), all pass CloseR", nEdges), fmt.Sprintf("end-of-stream edges found: %d; a return is reachable from the io.EOF branch at %s without calling CloseR", nEdges, where))
+		// conversely, the trailer decision is taken only when the block reader's error is identical to io.EOF: with the
+		// equal edges of the `err == io.EOF` tests deleted, no call of CloseR is reachable (an unexpected end of input, or
+		// any other error, must not be turned into "the frame ended here")
+		{
+			skipEOF := func(b *ssa.BasicBlock, k int) bool {
+				ifi, ok := b.Instrs[len(b.Instrs)-1].(*ssa.If)
+				if !ok {
+					return false
+				}
+				a := atomOf(ifi.Cond, k == 0)
+				return a.Kind == "eofcmp" && a.Val
+			}
+			var badAt ssa.Instruction
+			var judge func(target ssa.Instruction, depth int)
+			judge = func(target ssa.Instruction, depth int) {
+				g := target.Parent()
+				if !reachWithFacts(g, skipEOF)[target.Block()] {
+					return
+				}
+				if g == fn || depth <= 0 {
+					badAt = target
+					return
+				}
+				// a helper that closes unconditionally: its calls must lie behind the io.EOF test
+				for _, cs := range callSitesOf(g) {
+					for _, h := range fns {
+						if cs.Parent() == h {
+							judge(cs, depth-1)
+						}
+					}
+				}
+			}
+			for _, ci := range closeCalls {
+				judge(ci, 2)
+			}
+			why := ""
+			if badAt != nil {
+				why = "the call at " + p.InstrPos(badAt) + " is reachable without the block reader's error having compared equal to io.EOF (e.g. on io.ErrUnexpectedEOF): a frame cut inside a block is finished as if it had ended, and for frames without a content checksum Read/WriteTo report success"
+			}
+			c.Cond(badAt == nil, rule, name+"#closeR-only-on-eof", p.InstrPos(closeCalls[0]), "Frame.CloseR (the end-of-frame decision) is reached only through an `err == io.EOF` identity test", "unreachable once the equal edges are deleted", why)
+		}
 		// the error of CloseR reaches the result: it is stored to err / returned, not discarded
 		for _, ci := range closeCalls {
 			v := ci.Value()
